@@ -118,7 +118,7 @@ func gcdClass(sc []*big.Int) string {
 	}
 }
 
-var msmScalarProfiles = []string{"hash-like", "r=0", "r=1", "r-equal", "r-one-nonzero", "r-first-zero", "r-max", "S-top-slice", "even", "g=3", "g=4", "g=6", "g=8", "g=2^64", "g=3*2^100", "h-56bit", "h-112bit", "h-168bit", "r=2^127", "h=L-1"}
+var msmScalarProfiles = []string{"hash-like", "r=0", "r=1", "r-equal", "r-one-nonzero", "r-first-zero", "r-last-zero", "r-last-two-zero", "r-odd-zero", "r-max", "S-top-slice", "even", "g=3", "g=4", "g=6", "g=8", "g=2^64", "g=3*2^100", "h-56bit", "h-112bit", "h-168bit", "r=2^127", "h=L-1"}
 var msmPointProfiles = []string{"honest-distinct", "same-point", "pairs", "with-identity", "mixed-order", "all-torsion"}
 
 func mkMsmCase(n int, sp, pp string, rng *rt.Rng) *msmCase {
@@ -155,6 +155,19 @@ func mkMsmCase(n int, sp, pp string, rng *rt.Rng) *msmCase {
 			}
 		case "r-first-zero":
 			if i == 0 {
+				r = big.NewInt(0)
+			}
+		case "r-last-zero":
+			if i == n-1 {
+				r = big.NewInt(0)
+			}
+		case "r-last-two-zero":
+			if i >= n-2 {
+				r = big.NewInt(0)
+			}
+		case "r-odd-zero":
+			// an odd number of zero randomisers at the end and one in the middle
+			if i >= n-3 || i == n/2 {
 				r = big.NewInt(0)
 			}
 		case "r-max":
